@@ -418,3 +418,48 @@ Theorem C17_too_large_never_counted_as_failure :
   forall bs, proxy_after_forward (Some TooLarge) bs = (413, false).
 Proof. exact too_large_never_counted. Qed.
 Print Assumptions C17_too_large_never_counted_as_failure.
+
+(* ---- chunked request bodies: the limit counts DECODED bytes whatever the segmentation on the wire ---- *)
+(* [dechunk] decodes every well-formed chunk sequence — any chunk sizes, any spelling of the size lines (case,
+   leading zeros), any extensions, any trailer section — to the concatenation of the chunk data *)
+Theorem C17_dechunk_any_chunking :
+  forall cs size ext trailers fuel,
+  (forall c, In c cs -> wf_chunk c) -> wf_size_line size ext -> hex_num size 0 = 0%N ->
+  (length cs < fuel)%nat ->
+  dechunk fuel (enc_chunks cs (enc_last size ext trailers)) = Some (concat (map wc_data cs)).
+Proof. exact dechunk_enc. Qed.
+Print Assumptions C17_dechunk_any_chunking.
+
+(* ... and the limited reader above the decoder delivers the decoded body intact with EOF when it fits the limit,
+   exactly its first [limit] bytes with the too-large error otherwise — for ALL chunkings (the underlying reader
+   hands over one chunk's data at most per Read), all caller buffer sequences long enough to reach the end *)
+Theorem C17_chunked_limit_counts_decoded_bytes :
+  forall limit cs size ext trailers fuel eofd bufs d e s',
+  (forall c, In c cs -> wf_chunk c) -> wf_size_line size ext -> hex_num size 0 = 0%N ->
+  (length cs < fuel)%nat -> 0 <= limit ->
+  (forall m, In m bufs -> (1 <= m)%nat) ->
+  (length (concat (map wc_data cs)) + 2 <= length bufs)%nat ->
+  exists body, dechunk fuel (enc_chunks cs (enc_last size ext trailers)) = Some body /\
+    body = concat (map wc_data cs) /\
+    (read_all (mbr_init limit body (map (fun c => length (wc_data c)) cs) eofd) bufs = (d, e, s') ->
+     (Z.of_nat (length body) <= limit -> d = body /\ e = Some EOF) /\
+     (limit < Z.of_nat (length body) -> d = firstn (Z.to_nat limit) body /\ e = Some TooLarge)).
+Proof. exact chunked_limit_counts_decoded. Qed.
+Print Assumptions C17_chunked_limit_counts_decoded_bytes.
+
+Example C17_chunked_limit_counts_decoded_bytes_nonvacuous :
+  let c1 := {| wc_size := [51]%N; wc_ext := [59; 120]%N; wc_data := [1; 2; 3]%N |} in   (* "3;x" *)
+  let c2 := {| wc_size := [48; 50]%N; wc_ext := []; wc_data := [4; 5]%N |} in            (* "02" *)
+  let wire := enc_chunks [c1; c2] (enc_last [48]%N [59; 108]%N [88; 58; 49; 13; 10; 13; 10]%N) in
+  wf_chunk c1 /\ wf_chunk c2 /\ wf_size_line [48]%N [59; 108]%N /\ hex_num [48]%N 0 = 0%N /\
+  length wire = 30%nat /\ dechunk 3 wire = Some [1; 2; 3; 4; 5]%N /\
+  (* 30 bytes on the wire, 5 decoded: limit 5 lets everything through, limit 4 cuts after 4 *)
+  (let '(d, e, _) := read_all (mbr_init 5 [1; 2; 3; 4; 5]%N [3; 2]%nat false) [4; 4; 4; 4; 4; 4; 4]%nat in (d, e))
+    = ([1; 2; 3; 4; 5]%N, Some EOF) /\
+  (let '(d, e, _) := read_all (mbr_init 4 [1; 2; 3; 4; 5]%N [3; 2]%nat false) [4; 4; 4; 4; 4; 4; 4]%nat in (d, e))
+    = ([1; 2; 3; 4]%N, Some TooLarge).
+Proof.
+  cbv zeta. unfold wf_chunk, wf_size_line. cbn [wc_size wc_ext wc_data].
+  repeat split; try (vm_compute; reflexivity); try discriminate;
+    repeat (constructor; try (vm_compute; reflexivity); try discriminate).
+Qed.
